@@ -143,7 +143,8 @@ RawRune == <<XV("u"), XBin("+", XV("u"), XI(1))>>
 RawStr == <<XS(L(97)), XS(<<>>), XV("s"), XBin("+", XV("s"), XS(L(99))), Call0("M"), XCall("P", <<XV("s")>>), XCall("P", <<XS(L(122))>>),
                       Call0("K"), XV("w"), XV("y"), XV("t"), XV("p"), Call0("f"), Call0("N"), XCall("O", <<XS(L(122))>>), XCall("O", <<XV("s")>>),
                       XBin("+", Call0("M"), XS(L(99))), XBin("+", XV("t"), XV("s")), XV("y"), Call0("N"),
-                      XCall("Q", <<XI(1), XV("b")>>), XCall("Q", <<XI(2), XB(FALSE)>>)>>
+                      XCall("Q", <<XI(1), XV("b")>>), XCall("Q", <<XI(2), XB(FALSE)>>),
+                      XCall("W", <<>>), XCall("W", <<XI(1)>>), XCall("W", <<XV("n"), XI(2)>>), XCallSp("W", <<XV("l")>>), XCallSp("W", <<XSl("int", <<>>)>>)>>
 \* boolean typed, not constant (usable as the clauses of a switch without tag)
 RawNCBool == <<XV("b"), XCmp("==", XV("n"), XI(1)), XCmp("<", XV("n"), XI(2)), XNot(XV("b")), XNot(XV("s")),
                          XAnd(XV("b"), XCmp("==", XV("n"), XI(1))), XOr(XV("s"), XV("n")), XCmp("==", XV("s"), XS(L(107))),
@@ -246,9 +247,13 @@ FNode(sk, cx, r, c) ==
   CASE sk.k = "text" -> LET w == TmMix(r, c + 1) % 6 IN
                         FR(IF w = 0 THEN NComment(TextOf(cx, r, c)) ELSE IF w = 1 THEN NRaw(TextOf(cx, r, c), TmMix(r, c) % 2 = 1) ELSE NText(TextOf(cx, r, c)), cx, c + 2)
     [] sk.k = "show" -> FShow(cx, r, c)
-    [] sk.k = "var" -> FVar(cx, r, c)
-    [] sk.k = "assign" -> FAssign(cx, r, c)
-    [] sk.k = "expr" -> FExpr(cx, r, c)
+    [] sk.k \in {"var", "assign", "expr"} ->
+         LET f1 == IF sk.k = "var" THEN FVar(cx, r, c) ELSE IF sk.k = "assign" THEN FAssign(cx, r, c) ELSE FExpr(cx, r, c)
+             w == TmMix(r, f1.c) % 8 IN
+         IF w > 1 \/ f1.n.k = "text" THEN f1
+         ELSE IF w = 0 THEN FR(NBlock(<<f1.n>>), f1.cx, f1.c + 1)                       \* {%% s %%}
+         ELSE LET f2 == FAssign(f1.cx, r, f1.c + 1)  sh == FShow(f2.cx, r, f2.c) IN      \* {%% s1; s2; show x %%}
+              IF f2.n.k = "text" \/ sh.n.k = "text" THEN f1 ELSE FR(NBlock(<<f1.n, f2.n, [sh.n EXCEPT !.br = FALSE]>>), f2.cx, sh.c)
     [] sk.k = "break" -> FR(NBreak, cx, c)
     [] sk.k = "continue" -> FR(NContinue, cx, c)
     [] sk.k = "if" ->
@@ -353,7 +358,7 @@ FNode(sk, cx, r, c) ==
 (* ------------------------------------------------------------------------------------------------
    cases
    ------------------------------------------------------------------------------------------------ *)
-PreNames == {"n", "s", "b", "c", "l", "q", "M", "P", "K"}
+PreNames == {"n", "s", "b", "c", "l", "q", "M", "P", "K", "W"}
 Cx0 == LET T == Tables IN [vis |-> PreNames, here |-> PreNames, t |-> 0, pos |-> 1, T |-> T, xs |-> Lists(T, PreNames)]
 Globs == << <<>>, <<[n |-> "gs", t |-> "str", s |-> L(71), i |-> 0]>>,
             <<[n |-> "gs", t |-> "str", s |-> <<>>, i |-> 0], [n |-> "gn", t |-> "int", s |-> <<>>, i |-> 5]>> >>
@@ -373,6 +378,7 @@ HsOk(s) == CASE s.k = "show" -> HxAll(s.xs, 1, TRUE) [] s.k \in {"var", "assign"
 \* txt: the body is text content (the type after using / the macro's result type is written as string): in an .html file
 \* a macro cannot be declared there ("macro not in HTML content")
 HnOk(nd, txt) == CASE nd.k \in {"show", "var", "assign", "expr"} -> HsOk(nd)
+              [] nd.k = "block" -> \A j \in 1..Len(nd.ss) : HsOk(nd.ss[j])
               [] nd.k = "if" -> (nd.init = <<>> \/ HsOk(nd.init[1])) /\ HxOk(nd.c, TRUE) /\ HbOk(nd.a, 1, txt) /\ HbOk(nd.els, 1, txt)
               [] nd.k = "for3" -> HxOk(nd.from, FALSE) /\ HxOk(nd.c, FALSE) /\ HbOk(nd.body, 1, txt)
               [] nd.k \in {"while", "forever", "select"} -> HbOk(nd.body, 1, txt)
@@ -386,7 +392,8 @@ HnOk(nd, txt) == CASE nd.k \in {"show", "var", "assign", "expr"} -> HsOk(nd)
 HbOk(b, i, txt) == i > Len(b) \/ (HnOk(b[i], txt) /\ HbOk(b, i + 1, txt))
 
 \* the layout of a case: one file for most, the others by rotation
-LayoutOf(id) == <<"single", "import", "single", "extends", "single", "render", "single", "importas", "single", "extendsside", "single">>[(id % 11) + 1]
+LayoutOf(id) == <<"single", "import", "single", "extends", "single", "render", "single", "importas", "single", "extendsside", "single",
+                  "import3", "single", "extimport", "single", "extparam", "single", "renderin", "single">>[(id % 19) + 1]
 MkCase(id, fam, tree, g, shape) ==
   [id |-> id, fam |-> fam, fmt |-> IF HbOk(tree, 1, FALSE) /\ id % 3 = 0 THEN "html" ELSE "txt", lay |-> LayoutOf(id), pre |-> "P1", glob |-> g, tree |-> tree,
    src |-> TmSrc(tree), shape |-> shape]
@@ -481,6 +488,16 @@ DeepCase(X, j) == LET r == (j * 31) + (TmplSeed * 7717)
                    sh == RBody(Top, TmplDeepMin + (j % (TmplDeepMax + 1 - TmplDeepMin)), r, 0).b
                    fb == FBody(sh, 1, X, r + 3, 0) IN
                MkCase(3000000 + j, "deep", fb.b, Globs[(r % 3) + 1], 0)
+\* ---- family reject: a break / continue that crosses the boundary of a using or macro body must be refused at build time
+Rejects == <<
+  <<NFor3("i", XI(0), XCmp("<", XV("i"), XI(2)), NAssign("i", "++", XI(0)), <<NUsing(NShow(<<Itea>>, FALSE), FALSE, <<>>, FALSE, "", <<NText(L(97)), NBreak>>, FALSE)>>, FALSE)>>,
+  <<NForIn("v", XV("l"), <<NUsing(NShow(<<Itea>>, FALSE), FALSE, <<>>, FALSE, "", <<NText(L(97)), NContinue>>, TRUE)>>, <<>>, FALSE)>>,
+  <<NSwitch(<<>>, <<XV("n")>>, <<NClause(FALSE, <<XI(1)>>, <<NUsing(NVar("y", Itea, FALSE), FALSE, <<>>, FALSE, "", <<NBreak>>, FALSE)>>, FALSE), NClause(TRUE, <<>>, <<>>, FALSE)>>, FALSE)>>,
+  <<NFor3("i", XI(0), XCmp("<", XV("i"), XI(2)), NAssign("i", "++", XI(0)), <<NUsing(NShow(<<XCall("itea", <<>>)>>, FALSE), TRUE, <<>>, TRUE, "", <<NIf(<<>>, XB(TRUE), <<NBreak>>, <<>>, FALSE, FALSE)>>, FALSE)>>, FALSE)>>,
+  <<NWhile(XCmp("<", XV("c"), XI(2)), <<NAssign("c", "++", XI(0)), NMacro("N", <<>>, FALSE, "", <<NContinue>>, FALSE)>>, FALSE)>>,
+  <<NSelect(<<NMacro("N", <<>>, TRUE, "string", <<NBreak>>, TRUE)>>, FALSE)>>,
+  <<NForever(<<NBreak, NUsing(NShow(<<Itea>>, FALSE), FALSE, <<>>, FALSE, "", <<NFor3("i", XI(0), XCmp("<", XV("i"), XI(1)), NAssign("i", "++", XI(0)), <<NBreak>>, FALSE), NContinue>>, FALSE)>>, FALSE)>>
+>>
 \* the run is split over TmplParts TLC processes: process TmplPart takes every TmplParts-th case of each family
 Mine(n) == SetToSeq({j \in 1..n : j % TmplParts = TmplPart})
 CasesOf(S, E, P, X) ==
@@ -489,11 +506,13 @@ CasesOf(S, E, P, X) ==
       ctl == [j \in 1..Len(mc) |-> CtlCase(S, X, ci[mc[j]])]
       ex == [j \in 1..Len(me) |-> MkCase(1000000 + me[j], "expr", E[me[j]], Globs[(me[j] % 3) + 1], 0)]
       pr == [j \in 1..Len(mp) |-> MkCase(2000000 + mp[j], "probe", P[((mp[j] - 1) \div 3) + 1], Globs[((mp[j] - 1) % 3) + 1], 0)]
-      dp == [j \in 1..Len(md) |-> DeepCase(X, md[j])] IN
+      dp == [j \in 1..Len(md) |-> DeepCase(X, md[j])]
+      rj == IF TmplPart = 0 THEN [j \in 1..Len(Rejects) |-> [MkCase(4000000 + (19 * j), "reject", Rejects[j], <<>>, 0) EXCEPT !.fmt = IF j % 2 = 0 THEN "html" ELSE "txt"]] ELSE <<>> IN
   \* a filled tree that is outside the reference's domain (out of fuel, a string doubled in nested loops) is dropped here
   SelectSeq((IF TmplFamilies \in {"all", "ctl"} THEN ctl ELSE <<>>) \o (IF TmplFamilies \in {"all", "expr"} THEN ex ELSE <<>>)
             \o (IF TmplFamilies \in {"all", "expr", "probe"} THEN pr ELSE <<>>) \o (IF TmplFamilies \in {"all", "deep"} THEN dp ELSE <<>>),
             LAMBDA cs : TmRun(TmEquiv(cs.lay, "P1", cs.tree), cs.glob, "periter").outcome \in {"ok", "runerror"})
+  \o (IF TmplFamilies = "all" THEN rj ELSE <<>>)
 \* (the shapes are bound to a VALUE by a comprehension over a singleton before the cases are built from them)
 Cases == CHOOSE C \in {CasesOf(S, E, P, X) : S \in {SetToSeq(SkAll(TmplMaxNodes))}, E \in {ExprSeq}, P \in {Probes}, X \in {Cx0}} : TRUE
 
@@ -512,7 +531,7 @@ Theorems(cs) ==
       atcall == Ref(<<NVar("zz", XI(0), FALSE), NUsing(NVar("yy", Itea, FALSE), TRUE, <<>>, FALSE, "", B \o <<NShow(<<zz>>, TRUE)>>, FALSE),
                       NAssign("zz", "=", XI(7)), NShow(<<XCall("yy", <<>>)>>, TRUE)>>, g) IN
   [id |-> cs.id,
-   indomain |-> base.outcome \in {"ok", "runerror"},
+   indomain |-> cs.fam = "reject" \/ base.outcome \in {"ok", "runerror"},      \* (family reject: templates that must be refused)
    iftrue |-> Same(Ref(<<NIf(<<>>, XB(TRUE), B, <<NText(L(90))>>, FALSE, FALSE)>>, g), base),
    forzero |-> Same(Ref(<<NForIn("v", XSl("int", <<>>), <<NText(L(90))>>, B, FALSE)>>, g), base),
    usingshow |-> Same(Ref(<<NUsing(NShow(<<Itea>>, FALSE), FALSE, <<>>, FALSE, "", B, FALSE)>>, g), base),
@@ -522,12 +541,15 @@ Theorems(cs) ==
                           /\ once.out[j] = 48 /\ Without(once.out, j) = base.out
                           /\ Len(atcall.out) = Len(once.out) /\ atcall.out[j] = 55 /\ Without(atcall.out, j) = base.out),
    layout |-> LET eq == TmRun(TmEquiv(cs.lay, "P1", B), g, "periter")  o == base.out IN
-              /\ eq.outcome = base.outcome
+              /\ (cs.lay \notin {"extparam", "renderin"} => eq.outcome = base.outcome)
               /\ (base.outcome = "ok" => eq.out = CASE cs.lay = "single" -> o
                                                    [] cs.lay \in {"import", "importas"} -> <<120>> \o o \o <<55>>
                                                    [] cs.lay = "extends" -> <<120>> \o o \o <<121, 100, 101>>
                                                    [] cs.lay = "extendsside" -> <<120>> \o o \o <<121, 115, 101>>
-                                                   [] cs.lay = "render" -> <<97>> \o o \o <<98>> \o o \o <<100>>),
+                                                   [] cs.lay = "render" -> <<97>> \o o \o <<98>> \o o \o <<100>>
+                                                   [] cs.lay = "import3" -> <<120, 116>> \o o \o <<55>>
+                                                   [] cs.lay = "extimport" -> <<120, 98>> \o o \o <<121>>
+                                                   [] OTHER -> eq.out),          \* extparam / renderin: the body runs several times
    size |-> cs.src # <<>> /\ (cs.fam = "ctl" => TmTreeSize(cs.tree) <= 4 * TmplMaxNodes) /\ (cs.fam = "deep" => TmTreeSize(cs.tree) <= 4 * TmplDeepMax)]
 
 \* Two phases, two TLC runs (measured: with several workers TLC evaluates the single-threaded generation 6 times slower):
